@@ -49,8 +49,10 @@ class C15(Prop):
             nodes, edges = mp.named_motif(rng, "clique", rng.randint(2, 5 if tier == "quick" else 6))
         elif r < 0.8:
             nodes, edges = mp.named_motif(rng, "cycle", rng.randint(3, 9))
-        elif r < 0.9:
+        elif r < 0.86:
             nodes, edges = mp.named_motif(rng, "diamond", 4)
+        elif r < 0.93:
+            nodes, edges = mp.named_motif(rng, rng.choice(["dumbbell", "dumbbell", "barbell4"]), 6)
         else:
             nodes, edges = mp.named_motif(rng, "pentagon", 5)
         return nodes, edges
